@@ -38,14 +38,16 @@ func init() {
 type eth struct{}
 
 // PubKeyToAddr public key to address
+// only the unformatted address is cached, the format depends on
+// current crypto context (ForkFormatAddressKey), apply on every return
 func (e *eth) PubKeyToAddr(pubKey []byte) string {
 	pubStr := string(pubKey)
 	if value, ok := addrCache.Get(pubStr); ok {
-		return value.(string)
+		return formatAddr(value.(string))
 	}
 	addr := pubKey2EthAddr(pubKey)
 	addrCache.Add(pubStr, addr)
-	return addr
+	return formatAddr(addr)
 }
 
 // ValidateAddr address validation
@@ -87,16 +89,20 @@ func formatAddr(addr string) string {
 	return addr
 }
 
-// pubKey2EthAddr format eth addr
+// pubKey2EthAddr pubkey to unformatted eth addr (checksum hex format)
 func pubKey2EthAddr(pubKey []byte) string {
 
 	pub, err := crypto.DecompressPubkey(pubKey)
 	// ecdsa public key, compatible with ethereum, get address from eth api
 	if err == nil {
-		return formatAddr(crypto.PubkeyToAddress(*pub).String())
+		return crypto.PubkeyToAddress(*pub).String()
 	}
 	// just format as eth address if pubkey not compatible
+	// pubkey may be empty (e.g. from peer tx signature), avoid out of range
+	if len(pubKey) > 0 {
+		pubKey = pubKey[1:]
+	}
 	var a common.Address
-	a.SetBytes(crypto.Keccak256(pubKey[1:])[12:])
-	return formatAddr(a.String())
+	a.SetBytes(crypto.Keccak256(pubKey)[12:])
+	return a.String()
 }
